@@ -81,6 +81,16 @@ func (w *World) verifyFunc(fn *ssa.Function, ct *Contract, mode execMode) *FuncR
 		}
 		ex.initGhost(st)
 		st.assume("(>= " + st.region("G!out#len", "Int") + " 0)")
+		st.assume(not(sel(st.region("A", arr("Int", "Bool")), "0"))) // nil is not an allocated object
+		for _, g := range []string{"G!push#len", "G!cb#len", "G!ctrsum", "G!rdcount", "G!g_http_calls"} {
+			if _, ok := ex.regSorts[g]; ok {
+				st.assume("(>= " + st.region(g, "Int") + " 0)")
+			}
+		}
+		for _, g := range []string{"G!sentlen", "G!recvlen", "G!rdrec", "G!chancap"} {
+			a := st.region(g, arr("Int", "Int"))
+			st.assume("(forall ((c!g Int)) (! (>= (select " + a + " c!g) 0) :pattern ((select " + a + " c!g))))")
+		}
 		if ct != nil {
 			e := &env{vars: map[string]Val{}}
 			for _, r := range ct.requires {
@@ -120,6 +130,11 @@ func (w *World) verifyFunc(fn *ssa.Function, ct *Contract, mode execMode) *FuncR
 	res.LockSites = ex.lockSites
 	for _, f := range ex.spawned {
 		res.Spawned = append(res.Spawned, shortFn(f))
+	}
+	ex.structuralClauses(res)
+	res.Obls = res.Obls[:0]
+	for _, n := range ex.oblOrder {
+		res.Obls = append(res.Obls, ex.obls[n])
 	}
 	res.script = &smtScript{decls: ex.decls, declOrder: ex.declOrder, funs: ex.funs, funOrder: ex.funOrder, axioms: ex.axioms}
 	return res
@@ -244,6 +259,7 @@ func (ex *Exec) initGhost(st *State) {
 		"G!chancap": ii, "G!clock": "Int", "G!dyn": ii, "G!wraps": ii, "G!jsonof": ii, "I!String": arr("Int", "String"), "I!Int": ii, "I!Bool": arr("Int", "Bool"),
 		"G!donechan": ii, "G!ctxerr": ii, "G!out!#src": ii, "G!out!#by": ii,
 		"G!cb#len": "Int", "G!cb!ret": ii, "G!cb!fn": ii, "G!cb!arg0$Int": ii, "G!cb!arg1$String": arr("Int", "String"),
+		"G!push#len": "Int", "G!push!msg": ii, "G!push!src": ii, "G!pushedat": ii, "G!msgline": arr("Int", "String"), "G!reassstream": ii,
 		"G!lastrecv": "Int", "G!recvd!String": arr("Int", arr("Int", "String")), "G!recvd!Int": arr("Int", ii), "G!tickperiod": ii, "G!tickerof": ii, "G!rdlast": "Int", "G!rdcount": "Int", "G!rdrec": ii, "G!rdpos": ii, "G!rdstream": arr("Int", arr("Int", "String")), "G!rdlasterr": ii, "G!rdsrc": ii,
 	} {
 		st.region(name, sort)
@@ -332,4 +348,106 @@ func (ex *Exec) isGuardedMapRegion(r string) bool {
 		}
 	}
 	return false
+}
+
+// structuralClauses: obligations decided on the SSA and on the recorded blocking operations (back end "structural").
+func (ex *Exec) structuralClauses(res *FuncResult) {
+	ct := ex.contract
+	if ct == nil {
+		return
+	}
+	// selects: the function must have a select receive arm for each named channel
+	if len(ct.selects) > 0 {
+		have := map[string]bool{}
+		for _, b := range ex.root.Blocks {
+			for _, in := range b.Instrs {
+				sel, ok := in.(*ssa.Select)
+				if !ok {
+					continue
+				}
+				for _, s := range sel.States {
+					if s.Dir == types.RecvOnly {
+						have[chanSourceName(s.Chan)] = true
+					}
+				}
+			}
+		}
+		for _, want := range ct.selects {
+			ob := ex.obl(ex.rootName+"/selects:"+want, "structural")
+			if have[want] {
+				ob.VCs = append(ob.VCs, VC{goal: "true", note: "select receives from " + want})
+			} else {
+				ob.VCs = append(ob.VCs, VC{goal: "false", note: "no select arm receives from " + want + " (arms found: " + strings.Join(sortedKeys(have), ", ") + ")"})
+			}
+		}
+	}
+	if ct.blocksNever {
+		ob := ex.obl(ex.rootName+"/blocks:never", "structural")
+		if len(ex.blocking) == 0 {
+			ob.VCs = append(ob.VCs, VC{goal: "true", note: "no channel operation, blocking call or call to a possibly blocking function on any path (callbacks executed in place)"})
+		} else {
+			ob.VCs = append(ob.VCs, VC{goal: "false", note: "declared never to block but performs: " + ex.blocking[0].Note + " at " + ex.blocking[0].Site})
+		}
+	}
+	// blocks cancellable: every blocking operation recorded during symbolic execution is cancellable or a declared external
+	if ct.blocksCancellable {
+		seen := map[string]bool{}
+		n := 0
+		for _, b := range ex.blocking {
+			key := b.Site + b.Kind
+			if seen[key] {
+				continue
+			}
+			seen[key] = true
+			n++
+			ob := ex.obl(fmt.Sprintf("%s/blocks:%s@%s", ex.rootName, b.Kind, b.Site), "structural")
+			okv := b.Cancellable
+			why := b.Note
+			if !okv && b.Kind == "external" {
+				for _, e := range ct.blockExt {
+					name := strings.TrimSpace(strings.SplitN(e, ":", 2)[0])
+					if strings.Contains(b.Note, name) {
+						okv = true
+						why += " — declared external, woken by: " + e
+					}
+				}
+			}
+			if okv {
+				ob.VCs = append(ob.VCs, VC{goal: "true", note: why})
+			} else {
+				ob.VCs = append(ob.VCs, VC{goal: "false", note: "blocking operation that cancellation cannot interrupt: " + b.Note + " on " + b.Chan})
+			}
+		}
+		ob := ex.obl(ex.rootName+"/blocks:scan", "structural")
+		ob.VCs = append(ob.VCs, VC{goal: "true", note: fmt.Sprintf("%d blocking operations examined", n)})
+	}
+}
+
+// chanSourceName names the source of a channel value: local variable, field, or ctx.Done.
+func chanSourceName(v ssa.Value) string {
+	switch x := v.(type) {
+	case *ssa.UnOp:
+		switch a := x.X.(type) {
+		case *ssa.Alloc:
+			return a.Comment
+		case *ssa.FieldAddr:
+			base := ""
+			if u, ok := a.X.(*ssa.UnOp); ok {
+				if al, ok := u.X.(*ssa.Alloc); ok {
+					base = al.Comment + "."
+				}
+			}
+			st := derefType(a.X.Type()).Underlying().(*types.Struct)
+			return base + st.Field(a.Field).Name()
+		case *ssa.FreeVar:
+			return a.Name()
+		}
+	case *ssa.Call:
+		if x.Common().IsInvoke() && x.Common().Method.Name() == "Done" {
+			return "ctx.Done"
+		}
+	case *ssa.Field:
+		return x.Name()
+	}
+	return v.Name()
 }
